@@ -662,6 +662,8 @@ class Function(ValueNode):
     def func(self, function_handle):
         self._func = function_handle
         self._stale = True
+        # the value of this node changes with its function: parents need to be updated as well
+        self.notify_parents()
 
     @ValueNode.value.setter
     def value(self, value):
